@@ -224,9 +224,8 @@ def check_rot(case, mon, ctx):
             if e.shape == p.shape and np.abs(p - e).max() <= 1.0 + 1e-6:
                 ok = True
         if not ok:
-            # region polygons may start at a different vertex: compare as shapes
-            import shapely.geometry as sg
-            P = sg.Polygon(p)
-            ok = any(sg.Polygon(e).symmetric_difference(P).area <= (P.length + 4) * 1.5 for e in exp_p if len(e) >= 3) if P.is_valid else False
+            # region polygons may start at a different vertex: compare as shapes (boundaries within 1 px)
+            from vf.genlib import same_polygon_shape
+            ok = any(same_polygon_shape(p, e, 1.0 + 1e-6) for e in exp_p if len(e) >= 3)
         if not ok:
             mon.violation('rotated-analysis-returns-original-coordinates', dict(w, what='region', got=p, expected=[e.tolist() for e in exp_p][:3]))
